@@ -574,10 +574,11 @@ def rule_formatters(run, prog):
 
     def build(b):
         files = []
-        plan = [("zz/zz.c", [("Error", (9, 1)), ("Notice", (4, 7)), ("Error", (4, 2)), ("Error", (1, 1))]),
+        # (the directory name holds a byte that is not UTF-8, the way os.fsdecode hands it over: a lone surrogate)
+        plan = [("z\udcffz/zz.c", [("Error", (9, 1)), ("Notice", (4, 7)), ("Error", (4, 2)), ("Error", (1, 1))]),
                 ("aa.c", []),
                 ("mm.h", [("Notice", (2, 2)), ("Error", (2, 1))]),
-                ("zz/zz.c", [("Notice", (5, 5))])]          # the same path mentioned twice: two File objects, two entries
+                ("z\udcffz/zz.c", [("Notice", (5, 5))])]    # the same path mentioned twice: two File objects, two entries
         for path, diags in plan:
             ds = []
             for i, (lv, pos) in enumerate(diags):
@@ -670,6 +671,12 @@ def rule_formatters(run, prog):
             bad = f"not a JSON document: {e}"
         if bad is None and not jout.endswith("\n"):
             bad = "the document is not followed by a newline"
+        if bad is None:
+            try:
+                jout.encode("utf-8")
+            except UnicodeEncodeError as e:
+                bad = (f"the document cannot be written out ({e.reason} at offset {e.start}): a path with a byte that is not UTF-8 "
+                       f"is exported unescaped, printing the report fails and no JSON comes out")
     run.ob("R-8.5", f"{js.key}::valid-json-by-construction", bad is None,
            f"the JSON formatter's result is not one valid JSON document (+ newline) for texts with quotes, backslashes and "
            f"non-ASCII letters: {bad}", js.node)
@@ -784,3 +791,5 @@ def check(run, prog):
     rule_prints(run, prog)
     from .c09_linesplit import rule_line_split
     rule_line_split(run, prog, "R-8.7")
+    from .c08_container import rule_container_keeps_all
+    rule_container_keeps_all(run, prog, "R-8.8")
